@@ -13,7 +13,19 @@ func H_C17_dq() {
 	if withBackslash == 1 {
 		alpha = "\"'\\a`"
 	}
-	s := verif.Str("s", maxLen, alpha)
+	checkDQ(verif.Str("s", maxLen, alpha))
+}
+
+// H_C17_dq_context: a double-quoted identifier after any short prefix of
+// quotes, backticks and backslashes (the quoting state it is scanned in is
+// the one the tokenizer is in).
+func H_C17_dq_context() {
+	// (no double quote in the prefix: `""` next to the identifier is the embedded-quote case of H_C17_dq)
+	prefix := verif.Str("prefix", 3+verif.Tier(), "`\\'a ")
+	checkDQ(prefix + "\"b\"")
+}
+
+func checkDQ(s string) {
 	// the implementation runs first, on the still symbolic bytes
 	out, err := DoubleQuotesToBackTick(s)
 	class, typ, start, end, val := verif.MySQLScan(s)
